@@ -91,10 +91,96 @@ theorem styles_same_tokens_ascii (q : WQuirks) (items : List Node)
   congr 1
   exact NR_of_D (styles_same_buffer q _ h)
 
-/- Not proved (kept visible): the same statement for non-ASCII buffers, where `frame`
-   prepends `@charset "UTF-8";\n` resp. the byte-order mark and `norm` strips it again
-   (`norm_frame_nonascii : isAscii rev = false → norm (frame s rev) = (NR rev).reverse`);
-   `styles_same_buffer` itself holds for every buffer. -/
+/-! ### the non-ASCII case: the encoding mark is the only difference -/
+
+theorem dropNl_append_nonascii {r m : Bytes} (h : isAscii r = false) :
+    (r ++ m).dropWhile (· = 10) = r.dropWhile (· = 10) ++ m ∧ isAscii (r.dropWhile (· = 10)) = false := by
+  induction r with
+  | nil => simp [isAscii] at h
+  | cons x r ih =>
+    simp only [List.cons_append, List.dropWhile]
+    split
+    · next hx =>
+      simp at hx; subst hx
+      have : isAscii r = false := by
+        simp only [isAscii, List.all_cons] at h ⊢
+        simpa using h
+      exact ih this
+    · exact ⟨rfl, h⟩
+
+theorem popSemi_append_cons (s : Style) (y : UInt8) (t m : Bytes) :
+    popSemi s ((y :: t) ++ m) = popSemi s (y :: t) ++ m := by
+  unfold popSemi
+  cases s
+  · simp
+  · by_cases hy : y = 59
+    · subst hy; simp
+    · simp [hy]
+
+theorem isAscii_popSemi_false (s : Style) (t : Bytes) (h : isAscii t = false) : isAscii (popSemi s t) = false := by
+  unfold popSemi
+  split
+  · next r =>
+    simp only [isAscii, List.all_cons] at h ⊢
+    simpa using h
+  · exact h
+
+theorem stripMark_mark (s : Style) (X : Bytes) (hX : isAscii X = false) : stripMark (mark s ++ X) = X := by
+  cases s
+  · -- expanded: `@charset "UTF-8";\n`
+    unfold stripMark
+    have h1 : bom.isPrefixOf (mark .expanded ++ X) = false := by
+      simp [bom, mark, List.isPrefixOf]
+    have h2 : isAscii (mark .expanded ++ X) = false := by rw [isAscii_append, hX]; simp
+    have h3 : (mark .expanded).isPrefixOf (mark .expanded ++ X) = true := by
+      rw [List.isPrefixOf_iff_prefix]; exact List.prefix_append _ _
+    simp [h1, h2, h3]
+  · unfold stripMark
+    have h1 : bom.isPrefixOf (mark .compressed ++ X) = true := by
+      rw [List.isPrefixOf_iff_prefix]; exact List.prefix_append _ _
+    rw [if_pos h1]; rfl
+
+/-- Non-ASCII buffer: `frame` prepends the mark, `norm` strips it: the normal form of the
+framed output is again the normal form of the buffer. -/
+theorem norm_frame_nonascii (s : Style) (rev : Bytes) (h : isAscii rev = false) :
+    norm (frame s rev) = (NR rev).reverse := by
+  obtain ⟨hd, hta⟩ := dropNl_append_nonascii (m := (mark s).reverse) h
+  have hne : rev.dropWhile (· = 10) ≠ [] := by
+    intro he; rw [he] at hta; simp [isAscii] at hta
+  obtain ⟨y, t, hyt⟩ := List.exists_cons_of_ne_nil hne
+  have hframe : frame s rev = mark s ++ ((popSemi s (rev.dropWhile (· = 10))).reverse ++ [10]) := by
+    unfold frame
+    simp only [h, Bool.false_eq_true, if_false]
+    rw [hd, hyt, popSemi_append_cons]
+    have : (popSemi s (y :: t) ++ (mark s).reverse).isEmpty = false := by
+      cases s <;> simp [mark]
+    simp [this, List.reverse_append]
+  have hX : isAscii ((popSemi s (rev.dropWhile (· = 10))).reverse ++ [10]) = false := by
+    rw [isAscii_append, isAscii_reverse, isAscii_popSemi_false s _ hta]; rfl
+  unfold norm
+  rw [hframe, stripMark_mark s _ hX]
+  congr 1
+  simp only [List.reverse_append, List.reverse_cons, List.reverse_nil, List.nil_append,
+    List.reverse_reverse, List.singleton_append]
+  have : NR (10 :: popSemi s (rev.dropWhile (· = 10))) = NR (popSemi s (rev.dropWhile (· = 10))) := by
+    unfold NR; rw [F_cons_ws (by decide)]
+  rw [this, NR_strip]
+
+theorem norm_frame (s : Style) (rev : Bytes) : norm (frame s rev) = (NR rev).reverse := by
+  cases h : isAscii rev
+  · exact norm_frame_nonascii s rev h
+  · exact norm_frame_ascii s rev h
+
+/-- **styles_same_tokens**: for every css tree whose atoms agree up to white space, the expanded
+and the compressed output have the same normal form — ASCII or not (the encoding mark,
+`@charset "UTF-8";` vs. the byte-order mark, is the only difference `frame` adds). -/
+theorem styles_same_tokens (q : WQuirks) (items : List Node)
+    (h : nodesEq (Nodes.ofList (hoistImports items)) = true) :
+    norm (intoBuffer q .expanded items) = norm (intoBuffer q .compressed items) := by
+  unfold intoBuffer
+  rw [norm_frame, norm_frame]
+  congr 1
+  exact NR_of_D (styles_same_buffer q _ h)
 
 /-- `ListSeparator::sep(compressed)` of value/list_separator.rs -/
 inductive Sep | space | slash | slashNoSpace | comma
